@@ -2,8 +2,8 @@ import Driver.Util
 import HeimdallModel.Model.FactoryProbe
 import HeimdallModel.Spec.Inheritance
 -- @family factory
-/-! Line-protocol family `factory` (property C14): a configuration (catalogue, mode, default rule) and one rule
-definition; answers with the load verdict and, for an accepted rule, the traces of the probe requests — once from
+/-! Line-protocol family `factory` (property C14): a configuration (catalogue, mode, default rule) and a history
+of rule definitions loaded by one factory; answers, per rule, with the load verdict and, for an accepted rule, the traces of the probe requests — once from
 the model (`Factory.load`, the function the theorems are about) and once from the specification (`Spec.load`). -/
 open Lean Heimdall Heimdall.Factory
 
@@ -64,17 +64,31 @@ def catalogue (ds : List Decl) : Catalogue := fun k id =>
 def flavours (ds : List Decl) : Flavours := fun k id =>
   ((ds.find? (fun d => d.kind == k && d.id == id)).map (·.flavour)).getD .remote
 
-def parseDefault (c : Json) : E (Option DefaultRule) := do
+/-- a list-valued key as spelled in the case: absent, `null` or a list -/
+def parseListed (j : Json) (k : String) : E Listed :=
+  match j.getObjVal? k with
+  | .error _ => pure .absent
+  | .ok .null => pure .null
+  | .ok (.arr a) => do pure (.items (← a.toList.mapM parseStep))
+  | .ok _ => throw s!"{k}: list, null or nothing expected"
+
+def spelling (l : Listed) : String :=
+  match l with
+  | .absent => "absent"
+  | .null => "null"
+  | .items [] => "empty"
+  | .items _ => "items"
+
+def parseDefault (c : Json) : E (Option RawDefault) := do
   if isNull c "default" then pure none else
   let d ← fld c "default"
-  pure (some { backtracking := boolD d "bt" false, execute := ← parseSteps d "execute",
-               onError := ← parseSteps d "on_error" })
+  pure (some { backtracking := boolD d "bt" false, execute := ← parseListed d "execute",
+               onError := ← parseListed d "on_error" })
 
-def parseRule (c : Json) : E RuleDef := do
-  let r ← fld c "rule"
+def parseRule (r : Json) : E RawRule := do
   let bt ← (if isNull r "bt" then pure none else do pure (some (← bool r "bt")))
-  pure { backtracking := bt, forwardTo := boolD r "forward_to" false, execute := ← parseSteps r "execute",
-         onError := ← parseSteps r "on_error" }
+  pure { backtracking := bt, forwardTo := boolD r "forward_to" false, execute := ← parseListed r "execute",
+         onError := ← parseListed r "on_error" }
 
 /-- the second rule of the probe rule set: `/r/**`, any method, one anonymous authenticator, `forward_to` set -/
 def companion : RuleDef := { forwardTo := true, execute := [{ authenticator := some "anon" }] }
@@ -99,9 +113,9 @@ def probes (fl : Flavours) (main comp : Effective) (dflt : Option Pipelines) : L
     fallback ⟨true, false⟩ ]
 
 def rejectedCfg : Json := Json.mkObj [("factory", jstr "rejected")]
-def rejectedRule : Json := Json.mkObj [("factory", jstr "ok"), ("load", jstr "rejected")]
-def acceptedJson (ps : List Json) : Json :=
-  Json.mkObj [("factory", jstr "ok"), ("load", jstr "accepted"), ("probes", jarr ps)]
+def rejectedRule : Json := Json.mkObj [("load", jstr "rejected")]
+def acceptedRule (ps : List Json) : Json := Json.mkObj [("load", jstr "accepted"), ("probes", jarr ps)]
+def loadedJson (loads : List Json) : Json := Json.mkObj [("factory", jstr "ok"), ("loads", jarr loads)]
 
 def reasonStr (r : Reason) : String :=
   match r with
@@ -115,6 +129,7 @@ def reasonStr (r : Reason) : String :=
   | .badOverride => "bad_override"
   | .noAuthenticator => "no_authenticator"
   | .duplicateSteps => "duplicate_steps"
+  | .notAList => "not_a_list"
 
 def stageName (s : Stage) : String :=
   match s with
@@ -128,43 +143,74 @@ def allStages : List Stage := [.authentication, .handling, .finalization, .error
 def keyCount (s : Step) : Nat :=
   [s.authenticator, s.authorizer, s.contextualizer, s.finalizer, s.errorHandler].countP (·.isSome)
 
-def run (c : Json) : E Json := do
-  let decls ← (← arr c "cat").mapM parseDecl
-  let cat := catalogue decls
-  let fl := flavours decls
-  let proxy := strD c "mode" "decision" == "proxy"
-  let d ← parseDefault c
-  let r ← parseRule c
-  -- the model: the function the theorems of Props/C14 are about
-  let (res, reason) ← (match load cat proxy d r with
-    | .configRejected why => pure (rejectedCfg, "config:" ++ reasonStr why)
-    | .ruleRejected why => pure (rejectedRule, reasonStr why)
-    | .accepted f e =>
-      match loadRule cat f companion with
-      | .ok comp => pure (acceptedJson (probes fl e comp f.dflt), "")
-      | .error _ => throw "companion rule not loadable (catalogue without 'anon')" : E (Json × String))
-  -- the specification as oracle
-  let spec : Json := match Spec.load cat proxy d r with
-    | none => rejectedCfg
-    | some none => rejectedRule
-    | some (some (f, e)) => acceptedJson (probes fl e (Spec.effective d companion) f.dflt)
+def ruleStats (d : Option DefaultRule) (raw : RawRule) (reason : String) : Json :=
+  let r := raw.decode
   let ownSt := allStages.filter (fun st => !(own st r.execute r.onError).isEmpty)
   let inhSt := allStages.filter (fun st => (own st r.execute r.onError).isEmpty && !(ownDefault st d).isEmpty)
   let condOnly := allStages.filter (fun st =>
     let o := own st r.execute r.onError
     !o.isEmpty && o.all (·.conditional))
-  let stats := Json.mkObj [
+  Json.mkObj [
     ("reason", jstr reason),
-    ("has_default", Json.bool d.isSome),
     ("own", jstrs (ownSt.map stageName)),
     ("inherited", jstrs (inhSt.map stageName)),
     ("cond_only", jstrs (condOnly.map stageName)),
     ("n_execute", jnat r.execute.length),
     ("n_on_error", jnat r.onError.length),
+    ("execute_spelled", jstr (spelling raw.execute)),
+    ("on_error_spelled", jstr (spelling raw.onError)),
     ("ordered", Json.bool (orderedFrom 0 r.execute)),
     ("multi_key", Json.bool ((r.execute ++ r.onError).any (fun s => keyCount s > 1))),
     ("overrides", jnat ((r.execute ++ r.onError).countP (·.config.isSome))),
     ("bt_own", Json.bool r.backtracking.isSome)]
+
+def run (c : Json) : E Json := do
+  let decls ← (← arr c "cat").mapM parseDecl
+  let cat := catalogue decls
+  let fl := flavours decls
+  let proxy := strD c "mode" "decision" == "proxy"
+  -- rule sets of kubernetes resources are not validated by heimdall's rule set decoder
+  let validated := strD c "path" "yaml" != "k8s"
+  let d ← parseDefault c
+  let rs ← (arrD c "rules").mapM parseRule
+  -- the model: the function the theorems of Props/C14 are about
+  let (res, cfgReason, reasons) ← (match loadDocuments cat proxy validated d rs with
+    | .configRejected why => pure (rejectedCfg, reasonStr why, rs.map (fun _ => ""))
+    | .loaded f results =>
+      match loadRule cat validated f companion with
+      | .error _ => throw "companion rule not loadable (catalogue without 'anon')"
+      | .ok comp =>
+        let loads := results.map fun r =>
+          match r with
+          | .ok e => acceptedRule (probes fl e comp f.dflt)
+          | .error _ => rejectedRule
+        let reasons := results.map fun r =>
+          match r with
+          | .ok _ => ""
+          | .error why => reasonStr why
+        pure (loadedJson loads, "", reasons) : E (Json × String × List String))
+  -- the specification as oracle
+  let decoded : Except Reason (Option DefaultRule) := match d with
+    | none => .ok none
+    | some raw => raw.decode.map some
+  let (spec, dd) : Json × Option DefaultRule := match decoded with
+    | .error _ => (rejectedCfg, none)
+    | .ok dd =>
+      match Spec.loadHistory cat proxy validated dd (rs.map RawRule.decode) with
+      | none => (rejectedCfg, dd)
+      | some results =>
+        let f := Spec.factory proxy dd
+        let comp := Spec.effective dd companion
+        (loadedJson (results.map fun r =>
+          match r with
+          | some e => acceptedRule (probes fl e comp f.dflt)
+          | none => rejectedRule), dd)
+  let stats := Json.mkObj [
+    ("config_reason", jstr cfgReason),
+    ("has_default", Json.bool d.isSome),
+    ("default_execute_spelled", jstr (match d with | some raw => spelling raw.execute | none => "-")),
+    ("default_on_error_spelled", jstr (match d with | some raw => spelling raw.onError | none => "-")),
+    ("rules", jarr ((rs.zip reasons).map fun (raw, why) => ruleStats dd raw why))]
   pure (Json.mkObj [("res", res), ("spec", spec), ("stats", stats)])
 
 end Driver.Factory
